@@ -1581,6 +1581,10 @@ impl<'a> Parser<'a> {
         let mut inner_ids = vec![];
         while self.match_token(&TokenKind::Dot) {
             inner_ids.push(self.parse_identifier()?);
+            // every part is one level of nesting of the tree
+            if inner_ids.len() > 256 {
+                return Err(self.chain_too_long());
+            }
         }
         self.require_token(&TokenKind::LBrace)?;
 
